@@ -40,6 +40,7 @@ type interpreter struct {
 	steps   int64
 	depth   int
 	heap    map[string]interface{} // per-path scratch for intrinsics (tree models ...)
+	curFrame *frame
 }
 
 type deferred struct {
@@ -466,7 +467,7 @@ func callSSA(i *interpreter, caller *frame, callpos token.Pos, fn *ssa.Function,
 	}
 	name := fn.String()
 	if fn.Parent() == nil {
-		if in := i.eng.lookupIntrinsic(fn, name); in != nil {
+		if in := i.eng.lookupIntrinsic(fn, name); in != nil && !i.ctx.realBody(name) {
 			i.ctx.stubs[name]++
 			return in(fr, args)
 		}
@@ -577,6 +578,7 @@ func runFrame(fr *frame) {
 				panic(abortPath{"bound-exceeded", fmt.Sprintf("more than %d instructions on one path", fr.i.eng.MaxSteps)})
 			}
 			fr.curInstr = instr
+			fr.i.curFrame = fr
 			if visitInstr(fr, instr) == kReturn {
 				return
 			}
